@@ -378,10 +378,12 @@ def timeChoiceOk : Asn1 → Bool
     | none => false
   | _ => true
 
-/-- a field of TBSCertificate: the extensions block, or a two-element SEQUENCE (validity) -/
+/-- a field of TBSCertificate: the extensions block, a two-element SEQUENCE (validity), or the
+    version, whose DEFAULT value v1 must not be encoded (X.690 §11.5) -/
 def certFieldOk : Asn1 → Bool
   | .cons 2 3 [e] => extsCanonical e
   | .cons 0 16 [a, b] => timeChoiceOk a && timeChoiceOk b
+  | .cons 2 0 [.prim 0 2 c] => c != [0]        -- version [0] EXPLICIT INTEGER DEFAULT v1(0)
   | _ => true
 
 /-- canonical DER of a whole certificate: strict TLV, leaf rules everywhere, extension values
